@@ -163,4 +163,53 @@ PROPS = {
         note="the decrypt loop invariant (characters stay in the alphabet under slicing, positional decoding) did not "
              "discharge within budget with z3/cvc5 (see DESIGN.md); E-resub for re.search",
     ),
+    "C07": dict(
+        level="other",
+        lemmas=[],
+        functions=[M_SI + "_anonymize_value", M_SI + "_check_sensitive_item_format", M_SI + "_extract_enclosing_text"],
+        standins=[("rt_files", "C07")],
+        design_ref="7/C07",
+        technique="contracts on _anonymize_value/_check_sensitive_item_format/_extract_enclosing_text discharged by the "
+                  "pyvc VC generator (z3+cvc5); which token each of the 55 line regexes captures is checked bounded",
+        text="Proved for all inputs: the replacement is head + pseudonym + tail where the pseudonym is the stored one or "
+             "built from the lookup size and the format class (a function of FmtSpec(val), never of val's characters "
+             "beyond its class and md5 salt length), the lookup only grows by one entry, reserved/empty values are "
+             "returned as written.  NOT decidable here: capture-group extents of the backtracking line regexes (which "
+             "token is the secret) - bounded over 25 line forms x 7 classes; known finding: an all-digit secret after "
+             "'password' is taken for the optional type digit.",
+        note="E-passlib, E-b2a_hex, E-resub, trusted contracts on juniper_decrypt / juniper_nonrandom_encrypt (C18)",
+    ),
+    "C08": dict(
+        level="other",
+        lemmas=[],
+        functions=[M_SI + "_anonymize_value", M_SI + "_extract_enclosing_text"],
+        standins=[("rt_files", "C08")],
+        design_ref="7/C08",
+        technique="lookup contract of _anonymize_value (hit returns the stored replacement, entries never change, "
+                  "one new entry per new secret) and fix-point contract of _extract_enclosing_text, discharged by pyvc; "
+                  "injectivity of the hash renderings assumed",
+        text="Equal keys give equal replacements for every history of the lookup (invariant: entries are never removed "
+             "or changed); the key is the value with all enclosing text stripped (Stripped is proved for the returned "
+             "value), so quoting does not matter; $9$ values are keyed by their decryption (trusted contract).  Distinct "
+             "secrets get distinct pseudonym bases netconanRemoved<size>; that their type-7/$1$/$6$ renderings differ is "
+             "assumed of passlib.",
+        note="E-passlib collision-freedom is assumed and untestable; $9$ decrypt/encrypt round trip is the trusted "
+             "contract checked bounded under C18",
+    ),
+    "C09": dict(
+        level="other",
+        lemmas=[],
+        functions=[M_SI + "_check_sensitive_item_format", M_SI + "_anonymize_value", M_SI + "_extract_enclosing_text"],
+        standins=[("rt_files", "C09")],
+        design_ref="7/C09",
+        technique="_check_sensitive_item_format proved equal to the class function of the statement (regular-language "
+                  "membership atoms, z3); head/tail preservation clauses of _anonymize_value; passlib call-site "
+                  "preconditions (salt=9, salt length <= 8, rounds=5000); format of passlib output assumed + bounded",
+        text="The classifier equals FmtSpec (priority digits > type 7 > hex > $1$ > $6$ > $9$ > text) on all strings; "
+             "the result starts with the extracted head and ends with the extracted tail and head+value+tail is the "
+             "input; passlib is called within its preconditions for every input.  That passlib's output has the "
+             "promised shape is assumed and checked bounded (type 7 decoded, $1$ salt length, $6$ without rounds, $9$ "
+             "decrypted).",
+        note="E-passlib, E-b2a_hex; text before/after the secret on the line depends on regex capture extents (bounded)",
+    ),
 }
